@@ -363,6 +363,9 @@ def run(tier="quick", seed=0, replay=None):
         print(open(replay).read())
         return 1
     core.lean_stage(chk, "C14")
+    from harness import cover
+    _cv = cover.Cover(['ixai/utils/wrappers/base.py', 'ixai/utils/wrappers/sklearn.py', 'ixai/utils/wrappers/river.py', 'ixai/utils/wrappers/torch.py', 'ixai/utils/validators/model.py'])
+    _cv.__enter__()
     quick = tier == "quick"
     reqs, impls = [], []
     for fn, n in ((wrapper_cases, 150 if quick else 1500), (river_cases, 40 if quick else 400)):
@@ -390,6 +393,8 @@ def run(tier="quick", seed=0, replay=None):
                 chk.tie_failure("correspondence:wrapper", f"{desc}: impl={str(impl)[:300]} model={str(ans)[:300]}")
     else:
         chk.tie_failure("driver", "model driver not built")
+    _cv.__exit__(None, None, None)
+    cover.gate(chk, _cv, only_functions=['Wrapper', 'SklearnWrapper', 'RiverWrapper', 'TorchWrapper', 'validate_model_function'])
     chk.exhaustive = False
     chk.extra["explanation"] = ("Theorems about the array model (canon_size_one for every shape, canon_vector, batch_equals_single for row-wise models, "
                                 "input_order_irrelevant, only_named_features_reach_model, river_one_hot/river_stream, validate_table); the tie runs the "
